@@ -5,5 +5,5 @@ cd "$(dirname "$0")/.."
 D=$(mktemp -d /dev/shm/vfseed-XXXXXX)
 rsync -a --exclude .git --exclude docs --exclude 'examples-*' --exclude benchmarks --exclude __pycache__ /repo/ $D/repo/
 ( cd $D/repo && patch -s -p1 -i "$SRC/patch.diff" ) || { echo "patch failed"; rm -rf $D; exit 2; }
-VERIF_REPO=$D/repo ./check $ID $TIER "$@" 2>&1 | grep -v "^WARNING" | grep "VIOLATION\|leg=\|^OK\|HARNESS\|Error" | cut -c1-260 | head -12
+VERIF_REPO=$D/repo ./check $ID $TIER "$@" 2>&1 | grep -v "^WARNING" | grep "^VIOLATION\|^  leg=\|^OK\|^HARNESS" | cut -c1-260 | head -12
 rm -rf $D
